@@ -25,10 +25,11 @@ import (
 //   - "accepted" = decodes without error AND Sender() succeeds (multisig: every member signature recovers).
 //   - an accepted neighbour with the same signed hash but ANOTHER recovered sender (v flipped to the
 //     other valid recovery id, a byte of r or s changed) is allowed: it is a transaction of somebody else.
-//   - for multisig the identity compared by the second-encoding rule is (multisig address, recovered
-//     signers in order); the member list and the wallet address are not covered by the signed hash by
-//     design, such neighbours are counted (multisig_address_rebind_accepted,
-//     multisig_member_list_rewrite_accepted) but not reported.
+//   - multisig: neither the member signature list nor the wallet address is covered by the signed hash.
+//     Strict reading for the member list: reordering or dropping member signatures gives a byte-different
+//     accepted encoding with the same signed hash and the same sender -> reported under the single
+//     signature tx|same-hash-second-encoding|multisig-member-list|sig. A replaced wallet address is a
+//     different sender, outside the text: counted only (multisig_address_rebind_accepted).
 //   - over-rejection (decoder rejects a canonical well-typed string) is not forbidden; it is counted.
 func init() {
 	Register(&Check{ID: "C23", Level: "exploration", Run: runC23})
@@ -91,7 +92,7 @@ func runC23(c *Ctx) {
 		"libsecp256k1 (cgo) public-key recovery and Keccak are trusted; the honest signatures are additionally verified with crypto/ecdsa.Verify under the signing key",
 		"the table transaction type -> Go data struct (GetDataV3) and the field order/types of the wire structs are taken as the schema of the independent strict RLP reader (lattice/encoding/canon.go), which is written from the RLP specification and shares no code with /repo/rlp",
 		"all byte strings are covered only to edit distance 1 (2 in the header and signature regions, thorough) around honest encodings and completely up to length 2 (quick) / 3 (thorough)",
-		"multisig: member signatures and the wallet address are outside the signed hash by design; only per-signature canonicity and signer recovery are demanded")
+		"multisig: a replaced wallet address (same hash, same member signatures, other sender) is outside the property text and only counted; a rewritten member list (reorder/drop) is reported as a second valid encoding")
 }
 
 func orEmpty(s []string) []string {
